@@ -287,21 +287,24 @@ def run(chk):
         cs = grid_axis_ok(list(v.entries()), lo, hi, m, what)
         return f"{m} regularly spaced points inside [lower, upper]: lower + (upper - lower) * {[str(c) for c in cs]}"
 
-    def go_ode_grid(m):
-        gen = G.cls("DataGeneratorODE")(Sym('key'), m, K('tmin'), K('tmax'), 2, method='grid')
+    def go_ode_grid(m, rar=False):
+        kw = dict(rar_parameters=rar_params(), nt_start=m - 2) if rar else {}
+        gen = G.cls("DataGeneratorODE")(Sym('key'), m, K('tmin'), K('tmax'), 2, method='grid', **kw)
         return expect_1d_grid(gen.fields['times'], K('tmin'), K('tmax'), m, (m,), "DataGeneratorODE times")
 
-    def go_ns_time_grid(m):
+    def go_ns_time_grid(m, rar=False):
+        kw = dict(rar_parameters=rar_params(), n_start=2, nt_start=m - 2) if rar else {}
         gen = G.cls("CubicMeshPDENonStatio")(key=Sym('key'), n=4, nb=None, omega_batch_size=2, omega_border_batch_size=None, dim=1,
                                              min_pts=(K('min0'),), max_pts=(K('max0'),), method='grid', temporal_batch_size=2,
-                                             tmin=K('tmin'), tmax=K('tmax'), nt=m)
+                                             tmin=K('tmin'), tmax=K('tmax'), nt=m, **kw)
         a = expect_1d_grid(gen.fields['times'], K('tmin'), K('tmax'), m, (m,), "CubicMeshPDENonStatio times")
         b = expect_1d_grid(gen.fields['omega'], K('min0'), K('max0'), 4, (4, 1), "CubicMeshPDENonStatio omega (1-D)")
         return a + "; " + b
 
-    def go_statio_1d_grid(m):
+    def go_statio_1d_grid(m, rar=False):
+        kw = dict(rar_parameters=rar_params(), n_start=m - 2) if rar else {}
         gen = G.cls("CubicMeshPDEStatio")(key=Sym('key'), n=m, nb=None, omega_batch_size=2, omega_border_batch_size=None, dim=1,
-                                          min_pts=(K('min0'),), max_pts=(K('max0'),), method='grid')
+                                          min_pts=(K('min0'),), max_pts=(K('max0'),), method='grid', **kw)
         return expect_1d_grid(gen.fields['omega'], K('min0'), K('max0'), m, (m, 1), "CubicMeshPDEStatio omega (1-D)")
 
     def go_param_grid(m):
@@ -315,6 +318,12 @@ def run(chk):
         for nm, fn_ in (("DataGeneratorODE.generate_time_data", go_ode_grid), ("CubicMeshPDENonStatio.generate_time_data", go_ns_time_grid),
                         ("CubicMeshPDEStatio.generate_data[1D]", go_statio_1d_grid), ("DataGeneratorParameter.generate_data", go_param_grid)):
             chk.run("C08.R4", f"{MOD}:{nm}", {"method": "grid", "count": m}, (lambda fn_=fn_, m=m: fn_(m)), construct=f"grid table {nm}")
+    # with refinement configured the whole pre-allocated store (not only its first start-count entries) is a grid of the domain
+    from ..genenv import rar_params
+    for nm, fn_ in (("DataGeneratorODE.generate_time_data", go_ode_grid), ("CubicMeshPDENonStatio.generate_time_data", go_ns_time_grid),
+                    ("CubicMeshPDEStatio.generate_data[1D]", go_statio_1d_grid)):
+        chk.run("C08.R4", f"{MOD}:{nm}", {"method": "grid", "count": 5, "refinement": "configured, start count 3"},
+                (lambda fn_=fn_: fn_(5, rar=True)), construct=f"grid table {nm} (RAR)")
 
     # ---------------- R4 (continued): the assembled grid for dim >= 2, on small concrete counts: linspace with a concrete count is
     # the vector of its points as polynomials in the bounds, so the store is a concrete table whose rows must be exactly the
